@@ -26,6 +26,20 @@ Lemma fold_defines_set_rom ds : forall r t,
   set_rom (fold_left (fun r pv => add_symbol r (fst pv) (snd pv)) ds r) t.
 Proof. induction ds as [|[k v] ds IH]; intros r t; cbn [fold_left fst snd]; [reflexivity|]. rewrite add_symbol_set_rom. apply IH. Qed.
 
+(** where code generation stops in [a ++ b]: in [a], or — when [a] is generated — in [b] *)
+Lemma gen_list_site_app w gen gsite a : forall s b,
+  gen_list_site w gen gsite s (a ++ b) =
+  match gen_list w gen s a with
+  | Ok x => gen_list_site w gen gsite (fst x) b
+  | Err _ => gen_list_site w gen gsite s a
+  | OutOfFuel => None
+  end.
+Proof.
+  induction a as [|st a IH]; intros s b; cbn [app gen_list gen_list_site]; [reflexivity|].
+  destruct (gen_one w gen s st) as [[s1 n1]| |]; cbn [bind fst snd]; try reflexivity.
+  rewrite IH. destruct (gen_list w gen s1 a) as [[s2 n2]| |]; cbn [bind fst snd]; reflexivity.
+Qed.
+
 Theorem define_is_assign w rom ds lits fi prog :
   closed_literals w ds lits ->
   assemble_program w {| cf_rom := rom; cf_defines := ds |} prog =
@@ -34,7 +48,8 @@ Proof.
   intros Hl. unfold assemble_program, initial_resolver. cbn [cf_rom cf_defines fold_left].
   destruct (resolver_init w) as [r0| |]; cbn [bind]; try reflexivity.
   change (code_gen_fuel w cg_depth) with (gen_list w (code_gen_fuel w 299)).
-  rewrite gen_list_app.
+  change (code_gen_site w cg_depth) with (gen_list_site w (code_gen_fuel w 299) (code_gen_site w 299)).
+  rewrite gen_list_app, gen_list_site_app.
   rewrite (gen_assigns w _ ds lits fi _ Hl). cbn [bind fst snd cg_set_r cg_r cg_macros app].
   assert (E : fold_left (fun r pv => add_symbol r (fst pv) (snd pv)) ds
                 (match rom with Some t => set_rom r0 t | None => r0 end) =
